@@ -261,10 +261,90 @@ func vecWidth(arch string, ops []string) int {
 	return w
 }
 
+// arrSuffix is the NEON arrangement / element specifier of an arm64 operand: "B16", "S4", "D2", "S[1]", … for
+// `Vn.<suffix>`; for a register list `[Va.T, Vb.T, …]` the common specifier of its members (they must agree);
+// "" for every operand that is not a vector register with a specifier.
+func arrSuffix(mn, o string) string {
+	one := func(r string) string {
+		if m := reVecArrSfx.FindStringSubmatch(r); m != nil {
+			return m[1]
+		}
+		return ""
+	}
+	if strings.HasPrefix(o, "[") && strings.HasSuffix(o, "]") {
+		sfx := ""
+		for i, r := range splitOperands(o[1 : len(o)-1]) {
+			x := one(r)
+			if i > 0 && x != sfx {
+				die("register list %q of %s: mixed arrangements", o, mn)
+			}
+			sfx = x
+		}
+		return sfx
+	}
+	return one(o)
+}
+
+var reVecArrSfx = regexp.MustCompile(`^V\d+\.([A-Z]\d*(?:\[\d+\])?)$`)
+
+// emitArr writes module+"Arr": for every routine `r` of the arm64 listing a definition
+// `r_arr : List (List String)`, one entry per instruction of `r` (same order, same length), each the list of
+// the arrangement specifiers of its operands (see arrSuffix).  The `Instr` listing itself drops them.
+func emitArr(funcs []lstFunc, file, arch, module string) {
+	var sb strings.Builder
+	fmt.Fprintf(&sb, "/- GENERATED by /verif/go/cmd/translate (listing) from `go tool asm -S` of sm4/%s, GOARCH=%s — do not edit.\n   NEON arrangement / element specifiers of every operand of every instruction of SMGo/Gen/%s.lean\n   (same routines, same order, same length): \"B16\", \"S4\", \"S[0]\", …; \"\" = none. -/\nset_option maxRecDepth 100000\nnamespace SMGo.Gen.%sArr\n\n", file, arch, module, module)
+	const chunk = 128
+	var names []string
+	for _, f := range funcs {
+		nm := strings.ReplaceAll(f.name, ".", "_")
+		names = append(names, nm)
+		nchunks := 0
+		for i := 0; i < len(f.instrs); i += chunk {
+			end := i + chunk
+			if end > len(f.instrs) {
+				end = len(f.instrs)
+			}
+			fmt.Fprintf(&sb, "def %s_arr_c%d : List (List String) :=\n  [", nm, nchunks)
+			for j, in := range f.instrs[i:end] {
+				if j > 0 {
+					sb.WriteString(",\n   ")
+				}
+				var sfx []string
+				for _, o := range in.ops {
+					sfx = append(sfx, fmt.Sprintf("%q", arrSuffix(in.mn, o)))
+				}
+				fmt.Fprintf(&sb, "[%s]", strings.Join(sfx, ", "))
+			}
+			sb.WriteString("]\n\n")
+			nchunks++
+		}
+		fmt.Fprintf(&sb, "def %s_arr_chunks : List (List (List String)) := [", nm)
+		for k := 0; k < nchunks; k++ {
+			if k > 0 {
+				sb.WriteString(", ")
+			}
+			fmt.Fprintf(&sb, "%s_arr_c%d", nm, k)
+		}
+		fmt.Fprintf(&sb, "]\n\ndef %s_arr : List (List String) := %s_arr_chunks.flatten\n\n", nm, nm)
+	}
+	fmt.Fprintf(&sb, "def routines_arr : List (String × List (List (List String))) := [")
+	for i, nm := range names {
+		if i > 0 {
+			sb.WriteString(", ")
+		}
+		fmt.Fprintf(&sb, "(%q, %s_arr_chunks)", nm, nm)
+	}
+	fmt.Fprintf(&sb, "]\n\nend SMGo.Gen.%sArr\n", module)
+	writeIfChanged(module+"Arr.lean", []byte(sb.String()))
+}
+
 func emitListing(arch, file, module string) {
 	funcs := runAsmListing(arch, file)
 	if len(funcs) == 0 {
 		die("%s (%s): no routines in listing", file, arch)
+	}
+	if arch == "arm64" {
+		emitArr(funcs, file, arch, module)
 	}
 	var sb strings.Builder
 	fmt.Fprintf(&sb, "/- GENERATED by /verif/go/cmd/translate (listing) from `go tool asm -S` of sm4/%s, GOARCH=%s — do not edit. -/\nimport SMGo.Model.ISAInstr\nset_option maxRecDepth 100000\nnamespace SMGo.Gen.%s\nopen SMGo.Model.ISA\n\n", file, arch, module)
